@@ -89,6 +89,29 @@ def selection_discipline(ctx, R, funcs=None):
     return out
 
 
+def effective_keywords(ctx, f, call):
+    """keyword -> value of a call, with `**name` expanded when `name` is a local bound once to a dict literal / dict(k=v, ...) call (also several of them)"""
+    out = {}
+    for kw in call.keywords:
+        if kw.arg is not None:
+            out[kw.arg] = kw.value
+            continue
+        v = kw.value
+        if isinstance(v, ast.Name):
+            defs = [a for a in body_nodes(f) if isinstance(a, ast.Assign) and len(a.targets) == 1 and isinstance(a.targets[0], ast.Name) and a.targets[0].id == v.id]
+            if len(defs) == 1:
+                v = defs[0].value
+        if isinstance(v, ast.Dict) and all(isinstance(k, ast.Constant) and isinstance(k.value, str) for k in v.keys):
+            for k, val in zip(v.keys, v.values):
+                out[k.value] = val
+        elif isinstance(v, ast.Call) and isinstance(v.func, ast.Name) and v.func.id == "dict" and not v.args and all(k.arg for k in v.keywords):
+            for k in v.keywords:
+                out[k.arg] = k.value
+        else:
+            out["**"] = v
+    return out
+
+
 def selection_from_source(ctx, R):
     """signac sync: the -f / -j selection names jobs of the *source* (it is evaluated in the project the command runs in, or in the source) - never in the destination,
     where the jobs to be cloned do not exist yet."""
@@ -96,13 +119,13 @@ def selection_from_source(ctx, R):
     k = MAIN + ":main_sync|selection-project"
     if f is None:
         return [ctx.inc(R, None, None, "main_sync not found", construct=k)]
-    syncs = [c for c in body_nodes(f) if isinstance(c, ast.Call) and isinstance(c.func, ast.Attribute) and c.func.attr == "sync" and kwarg(c, "selection") is not None]
+    syncs = [c for c in body_nodes(f) if isinstance(c, ast.Call) and isinstance(c.func, ast.Attribute) and c.func.attr == "sync" and "selection" in effective_keywords(ctx, f, c)]
     if not syncs:
         return [ctx.inc(R, f, f.node, "no <destination>.sync(selection=...) call in main_sync", construct=k)]
     c = syncs[0]
     dst = c.func.value.id if isinstance(c.func.value, ast.Name) else None
     used = set()
-    frontier = names_in(kwarg(c, "selection"))
+    frontier = names_in(effective_keywords(ctx, f, c)["selection"])
     for _ in range(4):
         new = set()
         for nm in sorted(frontier - used):
@@ -143,9 +166,13 @@ def option_forwarding(ctx, R, funcs):
             out.append(ctx.inc(R, f, f.node, f"no .{api}(...) call in {fname}", construct=f"{f.qual}|forwarding"))
             continue
         c = calls[0]
+        eff = effective_keywords(ctx, f, c)
         for kw, attr in sorted(table.items()):
             k = f"{f.qual}|forward:{kw}"
-            v = kwarg(c, kw)
+            v = eff.get(kw)
+            if v is None and "**" in eff:
+                out.append(ctx.inc(R, f, c, f".{api}() receives **{canon(eff['**'])[:30]} of unknown content", construct=k))
+                continue
             if v is None:
                 # positional form of detect_schema(exclude_const, subset)
                 if api == "detect_schema" and kw == "exclude_const" and c.args:
@@ -171,14 +198,29 @@ def move_delegates(ctx, R):
     if f is None:
         return [ctx.inc(R, None, None, "main_move not found", construct=k)]
     bad = None
-    for c in body_nodes(f):
-        if isinstance(c, ast.Call):
-            e = common.ext_name(ctx, f, c) or ""
+    # main_move and the helpers of the module it calls (a loop shared with `signac clone` receives the operation as a callable: what main_move passes is its own code)
+    scope = [f]
+    seen = {f.qual}
+    todo = [f]
+    while todo:
+        g = todo.pop()
+        for c in body_nodes(g):
+            if isinstance(c, ast.Call):
+                for t in common.targets_of_funcs(ctx, g, c):
+                    if t.module.name == MAIN and t.qual not in seen and not t.name.startswith("main_") and t.name not in ("_open_job_by_id", "_print_err"):
+                        seen.add(t.qual)
+                        scope.append(t)
+                        todo.append(t)
+    moves = []
+    for g in scope:
+        for c in [x for x in ast.walk(g.node) if isinstance(x, ast.Call)]:
+            e = common.ext_name(ctx, g, c) or ""
             if e.startswith(("shutil.", "os.replace", "os.rename", "os.remove", "os.unlink")):
                 bad = bad or (c, e)
             elif isinstance(c.func, ast.Attribute) and c.func.attr in ("clone", "remove", "sync", "init"):
                 bad = bad or (c, "." + c.func.attr + "()")
-    moves = [c for c in body_nodes(f) if isinstance(c, ast.Call) and isinstance(c.func, ast.Attribute) and c.func.attr == "move"]
+            elif isinstance(c.func, ast.Attribute) and c.func.attr == "move":
+                moves.append(c)
     if bad:
         return [ctx.viol(R, f, bad[0], f"main_move uses {bad[1]} besides Job.move: a move that the rename refuses (other file system, existing destination) is carried out as a multi-step copy / "
                          "delete, which a fault leaves half done (the job in both projects) or which nests the job inside an existing destination job", construct=k)]
